@@ -585,7 +585,9 @@ func helpers(run *kit.Run) {
 		code := code
 		cases = append(cases, hc{fmt.Sprintf("String %d", code), func(c fox.Context) error { return c.String(code, "hello %s %d", "x", 7) }, code, "text/plain; charset=UTF-8", "hello x 7", "", nil})
 		cases = append(cases, hc{fmt.Sprintf("Blob %d", code), func(c fox.Context) error { return c.Blob(code, "application/x-verif", []byte{1, 2, 3, 0, 255}) }, code, "application/x-verif", "\x01\x02\x03\x00\xff", "", nil})
-		cases = append(cases, hc{fmt.Sprintf("Stream %d", code), func(c fox.Context) error { return c.Stream(code, "text/x-stream", strings.NewReader(strings.Repeat("s", 70000))) }, code, "text/x-stream", strings.Repeat("s", 70000), "", nil})
+		cases = append(cases, hc{fmt.Sprintf("Stream %d", code), func(c fox.Context) error {
+			return c.Stream(code, "text/x-stream", strings.NewReader(strings.Repeat("s", 70000)))
+		}, code, "text/x-stream", strings.Repeat("s", 70000), "", nil})
 	}
 	for code := 290; code <= 320; code++ {
 		code := code
